@@ -42,6 +42,29 @@ def run(tier, seed, which="C12"):
         groups.append(dict(gid="dup%d" % i, rel="duprows", prop="C12",
                            members=[dict(names=gen.names(rng, n), seqs=seqs, type=ty, threads=rng.choice([1, 4]), dump_in=True)],
                            key=json.dumps([seqs, ty]), nontrivial=len(set(seqs)) < len(seqs) and len(set(seqs)) > 1))
+    # a long duplicated sequence among SHORT fragments that are one edit away from one of its substrings (so the premise
+    # holds: nothing contains anything): whatever the length ratio, the copies are each other's nearest neighbours
+    for j in range(6 if tier == "quick" else 60):
+        kind = ["protein", "dna"][j % 2]
+        alpha = gen.AA if kind == "protein" else gen.DNA
+        L = rng.choice([340, 400, 480])
+        d = gen.rand_seq(rng, alpha, L) + ("LKEF" if kind == "protein" else "")
+        frags = []
+        # pairs of fragments around one residue of d: the same letter inserted after it in one, before it in the other
+        # (d: ..N K D.., fragments ..N K x D.. and ..N x K D..): each pulls a copy of d towards another gap position
+        for _ in range(rng.randint(1, 2)):
+            pos = rng.randrange(80, L - 80)
+            x = rng.choice([c for c in alpha if c not in (d[pos - 1], d[pos], d[pos + 1])])
+            for before in (False, True):
+                lo = pos - rng.randint(30, 50)
+                hi = pos + rng.randint(30, 50)
+                cut = pos if before else pos + 1
+                frags.append(d[lo:cut] + x + d[cut:hi])
+        seqs = [d] * rng.choice([2, 3]) + frags
+        rng.shuffle(seqs)
+        groups.append(dict(gid="frag%d" % j, rel="duprows", prop="C12",
+                           members=[dict(names=gen.names(rng, len(seqs)), seqs=seqs, type=5, threads=rng.choice([1, 4]), dump_in=True)],
+                           key=json.dumps([seqs, 5]), nontrivial=True))
     # duplicated sequences of 500 residues and more (the parallel Hirschberg controller aligns the copies), among relatives
     for j, L in enumerate([501, 640, 777] if tier == "quick" else [500, 501, 502, 640, 777, 999, 1000, 1001, 1503, 2001]):
         for kind in (("dna", "protein") if tier != "quick" else (("dna",) if j != 1 else ("protein",))):
